@@ -3,12 +3,15 @@
    (written from the specification text and the reference code) + Blocking.v /
    Overlap.v for windows, overlap and counts.  What is PROVED here, for all
    inputs: the sample count per packet; that walking the Huffman tree reads
-   back exactly the codeword table (any prefix-free table); the index
+   back exactly the codeword table (any prefix-free table), and that the
+   codeword assignment of the reference code (_make_words, marker array as in
+   lib/sharedbook.c) IS prefix-free whenever it accepts lengths below 32 - so
+   every accepted such book decodes by tree walk with no hypothesis; the index
    arithmetic of the three residue formats; floor-1 curve shape facts.  What is
    NOT proved: numerical values (inverse MDCT, window, floor-0 curve, dB table)
    - they are compared per run (exactly before the inverse MDCT, with a
    tolerance after it); see MANIFEST level note. *)
-From VV Require Import SrcFacts Bits Pcm Fl Setup Codebook PacketDec Blocking Decoder_lemmas Floor1_lemmas.
+From VV Require Import SrcFacts Bits Pcm Fl Setup Codebook PacketDec Blocking Decoder_lemmas MakeWords_lemmas Floor1_lemmas.
 From Coq Require Import ZArith List Bool.
 Import ListNotations.
 Local Open Scope Z_scope.
@@ -32,6 +35,25 @@ Theorem C01_tree_walk_is_table_lookup :
     hwalk (build_tree ws) (word_of w ++ rest) = Some (entry_of w, rest).
 Proof. exact build_tree_decodes. Qed.
 Print Assumptions C01_tree_walk_is_table_lookup.
+
+(* the reference code's codeword assignment: whatever codeword lengths (1..31, 0 = unused entry, any
+   order, sparse or not) _make_words accepts, the codewords it hands out are pairwise prefix-unrelated *)
+Theorem C01_make_words_prefix_free :
+  forall lens ws, (forall l, In l lens -> l <= 31) -> make_words lens = Some ws -> prefix_free ws.
+Proof. exact make_words_prefix_free. Qed.
+Print Assumptions C01_make_words_prefix_free.
+
+(* hence: every entry of every accepted book is read back by the tree walk, with no side condition *)
+Theorem C01_accepted_book_decodes_by_tree_walk :
+  forall lens ws, (forall l, In l lens -> l <= 31) -> make_words lens = Some ws ->
+    forall w rest, In w ws -> hwalk (build_tree ws) (word_of w ++ rest) = Some (entry_of w, rest).
+Proof. intros lens ws Hle Hmw. apply build_tree_decodes. exact (make_words_prefix_free lens ws Hle Hmw). Qed.
+Print Assumptions C01_accepted_book_decodes_by_tree_walk.
+
+(* non-vacuity: a sparse, unordered set of lengths that fills the tree exactly is accepted *)
+Example C01_make_words_accepts :
+  exists ws, make_words [3; 1; 0; 3; 2] = Some ws /\ length ws = 4%nat.
+Proof. eexists. split; [vm_compute; reflexivity|reflexivity]. Qed.
 
 (* a look-up never invents bits: what remains is a suffix of what was there, and
    a look-up through an inner node consumes at least one bit *)
